@@ -137,7 +137,24 @@ type hintSpec struct {
 func (r *pdRun) genHint(client string) hintSpec {
 	al := r.c.Alloc
 	own := keysOf(r.m.Known[client])
-	switch k := r.rng.Intn(11); {
+	switch k := r.rng.Intn(12); {
+	case k == 11: // a canonical prefix WIDER than the allocation size, around one of the client's own leases or anywhere
+		if al > r.m.PoolLen {
+			l := r.m.PoolLen + r.rng.Intn(al-r.m.PoolLen)
+			if r.rng.Intn(3) == 0 && r.m.PoolLen >= 8 {
+				l = r.m.PoolLen - 1 - r.rng.Intn(8)
+			}
+			b := r.rng.Int63n(int64(r.m.N))
+			cls := "wider-than-alloc"
+			if len(own) > 0 && r.rng.Intn(2) == 0 {
+				b = int64(r.m.Known[client][own[r.rng.Intn(len(own))]].Block)
+				cls = "wider-than-alloc-around-own"
+			}
+			if ip := r.blockAddr(b); ip != nil {
+				return hintSpec{cls, ip.Mask(net.CIDRMask(l, 128)), l}
+			}
+		}
+		return hintSpec{"length-only", net.IPv6zero, al}
 	case k == 0:
 		return hintSpec{"length-only", net.IPv6zero, []int{al, al + 4, 48, 64}[r.rng.Intn(4)]}
 	case k == 1:
